@@ -8,6 +8,7 @@ import BorshModel.SchemaOf
 import BorshModel.Io
 import BorshModel.IoOps
 import BorshModel.ArrayGuard
+import BorshModel.ValidateSpec
 open Borsh Driver
 
 def strict? : Sx → Option Bool
@@ -105,6 +106,35 @@ def showIoObs : IoObs → String
   | .failed e => "(" ++ showErr e ++ ")"
 
 def showObsList (xs : List IoObs) : String := "(" ++ " ".intercalate (xs.map showIoObs) ++ ")"
+
+def valErrOfToken (tok : String) : Option ValErr :=
+  match tok.splitOn "_" with
+  | [k, h] =>
+    match parseHex h with
+    | some d =>
+      if k == "zstSequence" then some (.zstSequence d)
+      else if k == "tagTooWide" then some (.tagTooWide d)
+      else if k == "tagTooNarrow" then some (.tagTooNarrow d)
+      else if k == "tagNotPowerOfTwo" then some (.tagNotPowerOfTwo d)
+      else if k == "missing" then some (.missing d)
+      else if k == "emptyLengthRange" then some (.emptyLengthRange d)
+      else none
+    | none => none
+  | _ => none
+
+/-- the specification's verdict on the implementation's `validate` observation -/
+def checkValidateAgainstSpec (c : Container) (tok : String) : String :=
+  if tok == "panic" then "SPEC: validate panicked"
+  else if tok == "ok" then
+    (if wellFormedDec c then "ok"
+     else "SPEC: ill-formed container accepted; defects: " ++
+       toString (((reachable c).map fun d => (defectsAt c (zeroSet c) d).map showValErr).flatten.take 3))
+  else match valErrOfToken tok with
+    | some e =>
+      if wellFormedDec c then "SPEC: well-formed container rejected"
+      else if defectReal c e then "ok"
+      else "SPEC: the reported error names no real defect"
+    | none => "bad-case token"
 
 def runCase (xs : List Sx) : String :=
   match xs with
@@ -247,6 +277,20 @@ def runCase (xs : List Sx) : String :=
       | .err e => "enc" ++ showErr e
       | .panic p => "encpanic " ++ showPanic p
     | _, _, _, _ => "bad-case parse"
+  | [.atom "wsraw", st, u, b] =>
+    match strict? st, ty? u, bytes? b with
+    | some st, some u, some bs => showOut showVal (tryFromSliceWithSchema st u bs)
+    | _, _, _ => "bad-case parse"
+  | [.atom "contval", st, b, .atom tok] =>
+    match strict? st, bytes? b with
+    | some st, some bs =>
+      match fromSlice st containerTy bs with
+      | .ok v =>
+        match containerOfVal v with
+        | some c => checkValidateAgainstSpec c tok
+        | none => "bad-case container-shape"
+      | _ => "ok"
+    | _, _ => "bad-case parse"
   | [.atom "schema", t] =>
     match ty? t with
     | some t =>
